@@ -25,6 +25,11 @@ def correspondence(ctx):
     rng = random.Random(ctx["seed"] + 14)
     streams, viol, samples = {}, [], []
     U.fractions_stream(rng, ctx["tier"] == "thorough", streams, viol, samples)
+    # fractions of inventories WITH a history (earlier read-outs, in-place changes) = fractions of a new inventory with the same
+    # contents (which the stream above ties to the model bit for bit)
+    import corr_history as H
+    H.history_stream(rng, 40 if ctx["tier"] == "thorough" else 8, 24, streams, viol, samples,
+                     only_calls={"activity_fractions", "mass_fractions", "mole_fractions"}, tag="fractions_after_history")
     return {"streams": streams, "violations": viol, "samples": samples}
 
 
